@@ -48,7 +48,9 @@ fn spawn(bin: &str, prop: &dyn DynProp, a: &ParentArgs, j: &Job, breadcrumb: Opt
         .arg("--root")
         .arg(&a.root)
         .arg("--out")
-        .arg(&j.out);
+        .arg(&j.out)
+        .arg("--hash-file")
+        .arg(format!("{}.nth", j.out));
     if let Some(d) = &j.digests {
         c.arg("--digests").arg(d);
     }
@@ -253,30 +255,64 @@ pub fn run(prop: &dyn DynProp, a: ParentArgs) -> i32 {
         }
     }
 
-    // cross-build digest comparison
+    // cross-build digest comparison: the same generated cases ran in both builds; a differing line is examined by
+    // re-executing that one case several times in fresh processes of each build. Only a stable, build-dependent
+    // difference is a violation; an outcome that varies within one build is nondeterminism, not build dependence.
     let mut cross_mismatch = 0u64;
-    if prop.cross_build() && prop.both_builds() {
+    let mut cross_notes: Vec<String> = Vec::new();
+    if prop.cross_build() && prop.both_builds() && failures.is_empty() {
         for s in 0..a.nshards {
             let fa = std::fs::read_to_string(format!("{scratch}/{id}-checked-{s}.dig")).unwrap_or_default();
             let fb = std::fs::read_to_string(format!("{scratch}/{id}-wrapping-{s}.dig")).unwrap_or_default();
-            if fa != fb {
-                // only meaningful if neither side stopped early because of a failure
-                let stopped = failures.iter().any(|_| true);
-                if !stopped {
-                    let first = fa.lines().zip(fb.lines()).position(|(x, y)| x != y).unwrap_or(0);
-                    cross_mismatch += 1;
-                    failures.push(FoundFailure {
-                        failure: Failure {
-                            kind: "cross-build".into(),
-                            clause: "checked-vs-wrapping-digest".into(),
-                            detail: format!("shard {s}: result digests of the overflow-checked and the wrapping build differ first at case #{first} of the shard (same generated cases)"),
-                        },
-                        case: serde_json::json!({"shard": s, "index": first}),
-                        stage: "cross-build".into(),
-                        profile: "both".into(),
-                        shrunk: false,
-                    });
+            if fa == fb {
+                continue;
+            }
+            let first = fa.lines().zip(fb.lines()).position(|(x, y)| x != y).unwrap_or(0);
+            let hash = fa.lines().nth(first).and_then(|l| l.split(' ').next()).unwrap_or("").to_string();
+            cross_mismatch += 1;
+            // recover the case
+            let emitted = format!("{scratch}/{id}-emit-{s}.json");
+            let j = Job { profile: "checked", shard: s, out: format!("{scratch}/{id}-emit-{s}.out"), digests: None };
+            if let Ok(mut c) = {
+                let mut cmd = Command::new(bin_of("checked"));
+                cmd.arg("worker").arg(id).arg("--tier").arg(a.tier.name()).arg("--seed").arg(a.seed.to_string()).arg("--shard").arg(s.to_string()).arg("--nshards").arg(a.nshards.to_string()).arg("--root").arg(&a.root).arg("--out").arg(&j.out).arg("--emit-hash").arg(&hash).arg("--emit-to").arg(&emitted);
+                cmd.stdin(Stdio::null()).stdout(Stdio::null()).stderr(Stdio::null()).spawn()
+            } {
+                let _ = c.wait();
+            }
+            let case: Option<serde_json::Value> = std::fs::read_to_string(&emitted).ok().and_then(|t| serde_json::from_str(&t).ok());
+            let digests_of = |bin: &str| -> Vec<String> {
+                (0..5)
+                    .map(|_| {
+                        Command::new(bin).arg("digest").arg(id).arg(&emitted).arg("--root").arg(&a.root).output().map(|o| String::from_utf8_lossy(&o.stdout).trim().to_string()).unwrap_or_default()
+                    })
+                    .collect()
+            };
+            match case {
+                Some(case) => {
+                    let dc = digests_of(&bin_of("checked"));
+                    let dw = digests_of(&bin_of("wrapping"));
+                    let stable = |v: &Vec<String>| v.iter().all(|x| x == &v[0] && !x.is_empty());
+                    if stable(&dc) && stable(&dw) && dc[0] != dw[0] {
+                        failures.push(FoundFailure {
+                            failure: Failure {
+                                kind: "cross-build".into(),
+                                clause: "checked-vs-wrapping-digest".into(),
+                                detail: format!("the result digest of this case is {} in the overflow-checked build and {} in the wrapping build (stable over 5 fresh processes each)", dc[0], dw[0]),
+                            },
+                            case: case.get("case").cloned().unwrap_or(case),
+                            stage: "cross-build".into(),
+                            profile: "both".into(),
+                            shrunk: false,
+                        });
+                    } else {
+                        let path = format!("{}/replays/{id}-nondeterministic-{hash}.json", a.root);
+                        let _ = std::fs::create_dir_all(format!("{}/replays", a.root));
+                        let _ = std::fs::write(&path, serde_json::to_string_pretty(&case).unwrap_or_default());
+                        cross_notes.push(format!("shard {s} case {hash}: the two builds' digests differed in the main run, but re-execution shows the outcome varies from process to process within one build (checked {dc:?}, wrapping {dw:?}): nondeterminism of the code under test, not build dependence; case saved to {path}"));
+                    }
                 }
+                None => infra.push(format!("cross-build digests of shard {s} differ at line {first} but the case {hash} could not be regenerated")),
             }
         }
     }
@@ -297,6 +333,11 @@ pub fn run(prop: &dyn DynProp, a: ParentArgs) -> i32 {
         ev_rand += s.evaluations_random;
         *per_build.entry(s.profile.clone()).or_insert(0) += s.evaluations;
         nontrivial.extend(s.nontrivial_hashes.iter().copied());
+        if let Ok(buf) = std::fs::read(format!("{scratch}/{id}-{}-{}.json.nth", s.profile, s.shard)) {
+            for c in buf.chunks_exact(8) {
+                nontrivial.insert(u64::from_le_bytes(c.try_into().unwrap()));
+            }
+        }
         if s.profile == "checked" {
             for (k, v) in &s.labels {
                 *labels.entry(k.clone()).or_insert(0) += v;
@@ -355,6 +396,7 @@ pub fn run(prop: &dyn DynProp, a: ParentArgs) -> i32 {
         "shards": a.nshards,
         "known_findings_hit": known_hits.iter().map(|(k, (n, _))| (k.clone(), *n)).collect::<BTreeMap<_, _>>(),
         "cross_build_digest_mismatches": cross_mismatch,
+        "cross_build_notes": cross_notes,
         "infrastructure_notes": infra,
     });
     if let Some(e) = extra {
